@@ -600,7 +600,7 @@ def run(ctx):
         "a Python literal of the wrong sort in an array operator is observed, not asserted",
         "four_neighbors compared as a set of cells plus 'same order as four_neighbor_indices'",
     ]
-    k, n = (8, 700) if ctx.quick() else (16, 20000)
+    k, n = (16, 1000) if ctx.quick() else (16, 20000)
     for r in pmap(shard, [(ctx.seed * 1000 + i, n) for i in range(k)] ):
         ctx.stats.merge(r)
     ctx.stats.merge(neighbors_all(None))
